@@ -109,6 +109,25 @@ def check(case, ctx):
         raise Violation("user-subclass-state-lost", f"a user subclass of Overloaded with instance state (tag, strict) around the root, protocol {proto}: on {dicts[i]} "
                                                     f"the original answers {before_u[i]} but its round-tripped copy {after_u[i]}")
     labels.add("user-subclass-round-trip")
+    # per-dataset switches set before pickling (disable_effects()) travel with the copy
+    with_effects = [d["name"] for d in spec["defs"] if d.get("effects")]
+    if with_effects:
+        T1 = pbuild(spec)
+        off = [nm for i, nm in enumerate(with_effects) if (case.get("toggle_mask", 1) >> i) & 1]
+        for nm in off:
+            T1.ds[nm].disable_effects()
+        try:
+            t_root, t_ds = pickle.loads(pickle.dumps((T1.root, T1.ds), protocol=proto))
+        except Exception as e:
+            raise Violation("cannot-pickle", f"graph with disable_effects() on {off}, protocol {proto}: {type(e).__name__}: {e}")
+        before_t = outcomes(T1.root, dicts) + [outcomes(T1.ds[nm], dicts) for nm in with_effects]
+        after_t = outcomes(t_root, dicts) + [outcomes(t_ds[nm], dicts) for nm in with_effects]
+        if after_t != before_t:
+            i = [k for k in range(len(before_t)) if before_t[k] != after_t[k]][0]
+            raise Violation("switch-lost-in-round-trip", f"disable_effects() on {off} before pickling (protocol {proto}): "
+                                                         f"{'root' if i == 0 else with_effects[i - 1]} answers {after_t[i]} after the round trip but {before_t[i]} before it")
+        if off:
+            labels.add("disable_effects-before-pickling")
     # a long-lived graph that has been used and reconfigured: after the round trip it must behave like the original
     # OBJECT (including what it has memoised), not like a fresh definition
     W = pbuild(spec)
@@ -182,7 +201,8 @@ def check_forms(case, ctx):
 def cases(draw, prof):
     spec = draw(specgen.specs(prof))
     p = draw(st.sampled_from([0.7, 0.9]))
-    return {"spec": spec, "options": [draw(U.option_dicts(p_present=p)) for _ in range(3)], "child_protocol": draw(st.integers(0, 5))}
+    return {"spec": spec, "options": [draw(U.option_dicts(p_present=p)) for _ in range(3)], "child_protocol": draw(st.integers(0, 5)),
+            "toggle_mask": draw(st.integers(1, 7))}
 
 
 def forms():
